@@ -70,20 +70,21 @@ func (d *mDef) SDL() string {
 
 func mergeUniverse() []*mDef {
 	return []*mDef{
-		{Kind: "interface", Name: "Node", Fields: []mField{{Name: "id", Type: "ID!"}}},
-		{Kind: "interface", Name: "Named", Fields: []mField{{Name: "name", Type: "String", Args: "(upper: Boolean = false)"}, {Name: "slug", Type: "String!"}}, Desc: "things with names"},
-		{Kind: "type", Name: "User", Impl: []string{"Node", "Named"}, Fields: []mField{
+		{Kind: "interface", Name: "Entity", Fields: []mField{{Name: "id", Type: "ID!"}}},
+		{Kind: "interface", Name: "Node", Impl: []string{"Entity"}, Fields: []mField{{Name: "id", Type: "ID!"}}},
+		{Kind: "interface", Name: "Named", Dirs: " @tag(name: \"n\")", Fields: []mField{{Name: "name", Type: "String", Args: "(upper: Boolean = false)"}, {Name: "slug", Type: "String!"}}, Desc: "things with names"},
+		{Kind: "type", Name: "User", Impl: []string{"Node", "Named", "Entity"}, Fields: []mField{
 			{Name: "id", Type: "ID!"}, {Name: "name", Type: "String", Args: "(upper: Boolean = false)"}, {Name: "slug", Type: "String!"},
 			{Name: "age", Type: "Int", Desc: "in years"}, {Name: "posts", Args: "(first: Int = 10, tags: [String!] = [\"a\"])", Type: "[Post!]"},
 			{Name: "role", Type: "Role"}, {Name: "joined", Type: "Date", Dirs: " @tag(name: \"d\")"}, {Name: "matrix", Type: "[[Int!]]!"}}},
-		{Kind: "type", Name: "Post", Impl: []string{"Node"}, Dirs: " @tag(name: \"p\")", Fields: []mField{
+		{Kind: "type", Name: "Post", Impl: []string{"Node", "Entity"}, Dirs: " @tag(name: \"p\")", Fields: []mField{
 			{Name: "id", Type: "ID!"}, {Name: "title", Type: "String!"}, {Name: "author", Type: "User"},
 			{Name: "related", Args: "(filter: Filter)", Type: "[Post]"}, {Name: "kind", Type: "Role!"}}},
-		{Kind: "enum", Name: "Role", Values: []string{"ADMIN", "USER", "GUEST"}, Desc: "roles"},
+		{Kind: "enum", Name: "Role", Dirs: " @tag(name: \"r\")", Values: []string{"ADMIN", "USER", "GUEST"}, Desc: "roles"},
 		{Kind: "input", Name: "Filter", Fields: []mField{{Name: "q", Type: "String = \"x\""}, {Name: "limit", Type: "Int"}, {Name: "roles", Type: "[Role!] = [USER]"}}},
-		{Kind: "union", Name: "Media", Values: []string{"Post", "User"}},
+		{Kind: "union", Name: "Media", Dirs: " @tag(name: \"m\")", Values: []string{"Post", "User"}},
 		{Kind: "scalar", Name: "Date"},
-		{Kind: "directive", Name: "tag", DirArgs: "(name: String = \"t\")", Locs: []string{"FIELD_DEFINITION", "OBJECT", "FIELD"}},
+		{Kind: "directive", Name: "tag", DirArgs: "(name: String = \"t\")", Locs: []string{"FIELD_DEFINITION", "OBJECT", "FIELD", "INTERFACE", "ENUM", "UNION", "ARGUMENT_DEFINITION"}},
 		{Kind: "directive", Name: "auth", DirArgs: "(role: Role)", Locs: []string{"QUERY", "FIELD_DEFINITION"}},
 		{Kind: "type", Name: "Query", Fields: []mField{
 			{Name: "me", Type: "User"}, {Name: "posts", Args: "(filter: Filter, first: Int = 5)", Type: "[Post]"},
@@ -169,7 +170,7 @@ func closeSvc(s *mSvc, uni []*mDef) {
 				if strings.Contains(f.Args, "Filter") {
 					changed = need("Filter", true) || changed
 				}
-				if strings.Contains(f.Dirs, "@tag") {
+				if strings.Contains(f.Dirs, "@tag") || strings.Contains(f.Args, "@tag") {
 					changed = need("tag", true) || changed
 				}
 			}
@@ -219,6 +220,9 @@ type mergeCase struct {
 	Mutation string   `json:"mutation"`
 	Orders   [][]int  `json:"orders"`
 	Tags     []string `json:"tags,omitempty"`
+	// a difference between the services' copies of one name that is none of the incompatibilities
+	// C09 lists: whatever mergeSchemas makes of it, it must make the same of it in every order
+	Variation string `json:"variation,omitempty"`
 	// the services' schemas as an introspection of them would give them: Query without the
 	// __schema and __type fields, which then come from the gateway's own schema only
 	Strip bool `json:"strip_introspection_fields,omitempty"`
@@ -279,6 +283,9 @@ func genMergeCase(r *rand.Rand, injectPct int) *mergeCase {
 	if r.Intn(100) < injectPct {
 		mc.Mutation = injectIncompat(r, mc, uni)
 	}
+	if mc.Mutation == "" && r.Intn(100) < 25 {
+		mc.Variation = varyCopy(r, mc)
+	}
 	mc.Strip = r.Intn(4) == 0
 	for _, s := range mc.Services {
 		closeSvc(s, uni)
@@ -298,6 +305,66 @@ func genMergeCase(r *rand.Rand, injectPct int) *mergeCase {
 		mc.Orders = append(mc.Orders, r.Perm(nsvc))
 	}
 	return mc
+}
+
+// varyCopy changes one service's copy of a shared interface, enum or union in a way the list of
+// incompatibilities does not mention: the interfaces an interface implements, the directives
+// applied to the type itself
+func varyCopy(r *rand.Rand, mc *mergeCase) string {
+	type cand struct {
+		s *mSvc
+		d *mDef
+	}
+	var cs []cand
+	for i, s := range mc.Services {
+		for _, d := range s.Defs {
+			if d.Kind != "interface" && d.Kind != "enum" && d.Kind != "union" && d.Kind != "type" {
+				continue
+			}
+			for j, o := range mc.Services {
+				if i != j && o.def(d.Name) != nil {
+					cs = append(cs, cand{s, d})
+					break
+				}
+			}
+		}
+	}
+	if len(cs) == 0 {
+		return ""
+	}
+	for try := 0; try < 10; try++ {
+		c := cs[r.Intn(len(cs))]
+		if c.d.Kind == "type" {
+			// a directive applied to one argument of a field (objects only: an interface's implementers would have to follow)
+			for i := range c.d.Fields {
+				f := &c.d.Fields[i]
+				if strings.Contains(f.Args, "first: Int = 10") {
+					f.Args = strings.Replace(f.Args, "first: Int = 10", fmt.Sprintf("first: Int = 10 @tag(name: %q)", "v"+c.s.Name), 1)
+					return fmt.Sprintf("%s.%s at %s: directive applied to an argument", c.d.Name, f.Name, c.s.Name)
+				}
+				if strings.Contains(f.Args, "(filter: Filter") {
+					f.Args = strings.Replace(f.Args, "(filter: Filter", fmt.Sprintf("(filter: Filter @tag(name: %q)", "v"+c.s.Name), 1)
+					return fmt.Sprintf("%s.%s at %s: directive applied to an argument", c.d.Name, f.Name, c.s.Name)
+				}
+			}
+			continue
+		}
+		if c.d.Kind == "interface" && len(c.d.Impl) > 0 && r.Intn(2) == 0 {
+			c.d.Impl = nil
+			return fmt.Sprintf("interface %s at %s: implements nothing", c.d.Name, c.s.Name)
+		}
+		if c.d.Dirs == "" {
+			c.d.Dirs = fmt.Sprintf(" @tag(name: %q)", "v"+c.s.Name)
+			return fmt.Sprintf("%s %s at %s: applied directive", c.d.Kind, c.d.Name, c.s.Name)
+		}
+		if r.Intn(2) == 0 {
+			c.d.Dirs = ""
+			return fmt.Sprintf("%s %s at %s: applied directive dropped", c.d.Kind, c.d.Name, c.s.Name)
+		}
+		c.d.Dirs = strings.Replace(c.d.Dirs, "\")", "2\")", 1)
+		return fmt.Sprintf("%s %s at %s: applied directive with another argument", c.d.Kind, c.d.Name, c.s.Name)
+	}
+	return ""
 }
 
 // injectIncompat applies one single-point difference to one service's copy of a shared name
